@@ -329,18 +329,34 @@ func tryNormalForms(id, tier, repo string, rep *Report, known *KnownFile) (*Repo
 	}
 	var attempts []map[string]interface{}
 	tried := map[string]bool{}
-	for _, v := range []struct {
+	// the rules lost their grip: nothing but floors and unresolved anchors is open
+	onlyLostGrip := true
+	for _, o := range open {
+		if !(o.Status == Undecided && (strings.HasPrefix(o.Key, "floor:") || strings.Contains(o.Key, "floor:") || strings.HasPrefix(o.Key, "anchor"))) {
+			onlyLostGrip = false
+		}
+	}
+	for vi, v := range []struct {
 		name string
 		pick func(string) bool
 	}{{"helpers the open obligations name", v1}, {"helpers called by the functions the open obligations name", v2}, {"helpers called by any function the rules examined", v3}} {
+		if vi == 2 && !onlyLostGrip {
+			continue // the widest selection is for rules that found nothing to examine
+		}
 		nf, err := normalForm(repo, v.pick)
 		att := map[string]interface{}{"selection": v.name}
 		if err != nil {
 			att["error"] = err.Error()
 			attempts = append(attempts, att)
+			if os.Getenv("NF_DEBUG") != "" {
+				fmt.Fprintf(os.Stderr, "normal form [%s]: %v\n", v.name, err)
+			}
 			continue
 		}
 		sig := strings.Join(nf.inlined, ";")
+		if os.Getenv("NF_DEBUG") != "" {
+			fmt.Fprintf(os.Stderr, "normal form [%s]: inlined %v kept %v (mentioned %v)\n", v.name, nf.inlined, nf.kept, mentioned)
+		}
 		if len(nf.inlined) == 0 || tried[sig] {
 			continue
 		}
@@ -349,6 +365,9 @@ func tryNormalForms(id, tier, repo string, rep *Report, known *KnownFile) (*Repo
 		att["left_alone"] = nf.kept
 		rep2, err := analyse(id, tier, repo, nf.overlay, nil, tier == "thorough")
 		if err != nil {
+			if os.Getenv("NF_DEBUG") != "" {
+				fmt.Fprintf(os.Stderr, "normal form [%s]: %.1500v\n", v.name, err)
+			}
 			att["error"] = err.Error()
 			attempts = append(attempts, att)
 			continue
